@@ -117,3 +117,18 @@ pub proof fn lemma_page_elems<K, V>(m: SMap<u64, V>, items: Seq<StdResult<(K, V)
     }
 }
 } // verus!
+
+verus! {
+/// filtering by a predicate that holds everywhere is the identity
+pub proof fn lemma_filter_all<V>(s: Seq<V>, p: spec_fn(V) -> bool)
+    requires forall|i: int| 0 <= i < s.len() ==> p(#[trigger] s[i]),
+    ensures s.filter(p) == s,
+    decreases s.len(),
+{
+    reveal(Seq::filter);
+    if s.len() > 0 {
+        lemma_filter_all(s.drop_last(), p);
+        assert(s.drop_last().push(s.last()) =~= s);
+    }
+}
+} // verus!
